@@ -7,6 +7,8 @@
 //   clone-parsed-pre : the oracle before mutation only (thorough: under ASan, while clone-parsed runs on the plain build)
 //   resets-api : the reset-link grid (2 shapes x where the reset's variable lives x where its test_variable lives, each of
 //                {own, sibling, child, no component, null} x order set/unset = 100 models), same oracle and mutation phase
+//   imports-api / imports-parsed : the import-sharing grid (imported component with an imported child / grandchild / sibling,
+//                with or without imported units, EVERY partition of those entities into shared import-source objects: 21 models)
 //   foreign-eq : models one of whose variables is equivalent to a variable outside the model (orphan / orphan component /
 //                other model): carve-out of the semantic oracle (what a copy of such a link should be is not stated); judged:
 //                no crash, and the clone's equivalences among its OWN variables are exactly the original's.
@@ -157,9 +159,55 @@ static json resetGridSpec(const RDims &d)
     m["eqs"].push_back({{"a", v(pA, 0)}, {"b", v(pK, 0)}, {"mid", "map1"}, {"cid", "con1"}});
     return m;
 }
-static int g_grid = 0; // 0: the 8-dimension model grid, 1: the reset-link grid
-static json specOf(uint64_t i) { return g_grid ? resetGridSpec(rdimsAt(i)) : modelSpec(dimsAt(i)); }
-static json whereOf(uint64_t i) { return g_grid ? rdimsJson(rdimsAt(i)) : dimsJson(dimsAt(i)); }
+// ---- the import-sharing grid: imports below imports and import sources shared across levels
+// entities: I = imported component (top level), J = imported component placed {child of I, child of a local child L of I, top-level
+// sibling}, U = imported units (absent / present, used by a variable of a local component); sharing = every partition of the present
+// entities into import-source objects (2 partitions of {I,J}, 5 of {I,J,U}): 3 x (2 + 5) = 21 models
+static const char *PARTS2[] = {"I|J", "IJ"};
+static const char *PARTS3[] = {"I|J|U", "IJ|U", "IU|J", "I|JU", "IJU"};
+static uint64_t importGridCount() { return 3 * 7; }
+struct IDims { int place, part; bool units; };
+static IDims idimsAt(uint64_t i)
+{
+    IDims d;
+    d.place = int(i / 7);
+    int p = int(i % 7);
+    d.units = p >= 2;
+    d.part = d.units ? p - 2 : p;
+    return d;
+}
+static json idimsJson(const IDims &d)
+{
+    static const char *place[] = {"J is a child of the imported component I", "J is a child of a local child L of the imported component I", "J is a top-level sibling of I"};
+    return {{"grid", "import-sharing"}, {"placement", place[d.place]}, {"imported_units", d.units}, {"import_source_partition", d.units ? PARTS3[d.part] : PARTS2[d.part]}};
+}
+static json importGridSpec(const IDims &d)
+{
+    std::string part = d.units ? PARTS3[d.part] : PARTS2[d.part];
+    auto source = [&](char who) { // the block of the partition `who` belongs to names the shared object
+        size_t pos = part.find(who), b = part.rfind('|', pos), e = part.find('|', pos);
+        std::string block = part.substr(b == std::string::npos ? 0 : b + 1, (e == std::string::npos ? part.size() : e) - (b == std::string::npos ? 0 : b + 1));
+        return json{{"id", "is_" + block}, {"url", "library.cellml"}, {"share", block}};
+    };
+    auto imported = [&](const std::string &n, char who) {
+        return json{{"k", "comp"}, {"name", n}, {"id", n + "_id"}, {"eid", n + "_eid"}, {"iref", "remote_" + n}, {"isrc", source(who)}, {"components", json::array()}};
+    };
+    json I = imported("I", 'I'), J = imported("J", 'J');
+    json L = {{"k", "comp"}, {"name", "L"}, {"id", "L_id"}, {"eid", "L_eid"}, {"math", ""},
+              {"variables", json::array({{{"k", "var"}, {"name", "v1"}, {"id", "L_v1"}, {"iv", "1.0"}, {"iface", "public"}, {"u", d.units ? json{{"k", "units"}, {"name", "U"}, {"link", true}} : json{{"k", "units"}, {"name", "second"}}}}})},
+              {"resets", json::array()}, {"components", json::array()}};
+    json m = {{"k", "model"}, {"name", "m"}, {"id", "m_id"}, {"eid", "m_eid"}, {"units", json::array()}, {"components", json::array()}, {"eqs", json::array()}};
+    if (d.units) m["units"].push_back({{"k", "units"}, {"name", "U"}, {"id", "U_id"}, {"iref", "remote_U"}, {"isrc", source('U')}});
+    if (d.place == 0) { I["components"].push_back(J); I["components"].push_back(L); }
+    else if (d.place == 1) { L["components"].push_back(J); I["components"].push_back(L); }
+    else I["components"].push_back(L);
+    m["components"].push_back(I);
+    if (d.place == 2) m["components"].push_back(J);
+    return m;
+}
+static int g_grid = 0; // 0: the 8-dimension model grid, 1: the reset-link grid, 2: the import-sharing grid
+static json specOf(uint64_t i) { return g_grid == 2 ? importGridSpec(idimsAt(i)) : g_grid ? resetGridSpec(rdimsAt(i)) : modelSpec(dimsAt(i)); }
+static json whereOf(uint64_t i) { return g_grid == 2 ? idimsJson(idimsAt(i)) : g_grid ? rdimsJson(rdimsAt(i)) : dimsJson(dimsAt(i)); }
 
 // ------------------------------------------------------------------------------------------------ worlds
 static PrinterPtr g_printer;
@@ -679,6 +727,32 @@ static void judgeEntity(const Source &src, size_t ei, Ctx &c, const json &where)
         for (auto &s : sharedKinds) c.violation("clone:" + kind + ":shares-object-with-original:" + s, det({}));
         c.outcome(sharedKinds.empty() ? "identity:disjoint" : "identity:shared-object");
     }
+    // sharing PARTITION of the import sources: entities that share one import source object in the original share one in the clone
+    // and vice versa (the printer groups by object identity). Sequence of "first position with the same object" in traversal order.
+    if (kind == "component" || kind == "model") {
+        auto partition = [](const EntityPtr &root) {
+            std::vector<const void *> seq;
+            std::function<void(const ComponentPtr &)> walk = [&](const ComponentPtr &comp) {
+                if (comp->isImport()) seq.push_back(comp->importSource().get());
+                for (size_t i = 0; i < comp->variableCount(); ++i) if (comp->variable(i)->units() && comp->variable(i)->units()->isImport()) seq.push_back(comp->variable(i)->units()->importSource().get());
+                for (size_t i = 0; i < comp->componentCount(); ++i) walk(comp->component(i));
+            };
+            if (auto m = std::dynamic_pointer_cast<Model>(root)) {
+                for (size_t i = 0; i < m->unitsCount(); ++i) if (m->units(i)->isImport()) seq.push_back(m->units(i)->importSource().get());
+                for (size_t i = 0; i < m->componentCount(); ++i) walk(m->component(i));
+            } else walk(std::dynamic_pointer_cast<Component>(root));
+            std::string sig;
+            for (size_t i = 0; i < seq.size(); ++i) {
+                size_t f = 0;
+                while (seq[f] != seq[i]) ++f;
+                sig += std::to_string(f) + " ";
+            }
+            return sig;
+        };
+        std::string po = partition(e), pk = partition(k);
+        if (po != pk) c.violation("clone:" + kind + ":import-source-sharing-partition-differs", det({{"original", po}, {"clone", pk}}));
+        if (!po.empty()) c.outcome("import-sharing:" + std::string(po == pk ? "same" : "DIFFERENT") + ":" + std::to_string(std::count(po.begin(), po.end(), ' ')) + "-imported-entities");
+    }
     // links of resets (component and model clones). Decided from the statement + the documentation of Component::clone()
     // ("full separate copy ... recreating the full component hierarchy"):
     //  * STRICT: a link to a variable of the reset's OWN component must, in the clone, be the variable at the same position of the
@@ -885,6 +959,10 @@ int main(int argc, char **argv)
          [](uint64_t i) { Source s = sourceAt(i, true, nullptr); return json{{"dims", dimsJson(dimsAt(i))}, {"origin", "printed-then-parsed"}, {"mutations", false}, {"document", s.text}}; }},
         {"resets-api", resetGridCount, [](uint64_t i, Ctx &c) { g_grid = 1; runClone(i, false, c); g_grid = 0; },
          [](uint64_t i) { g_grid = 1; json j = {{"dims", whereOf(i)}, {"origin", "api"}, {"spec", specOf(i)}}; g_grid = 0; return j; }},
+        {"imports-api", importGridCount, [](uint64_t i, Ctx &c) { g_grid = 2; runClone(i, false, c); g_grid = 0; },
+         [](uint64_t i) { g_grid = 2; json j = {{"dims", whereOf(i)}, {"origin", "api"}, {"spec", specOf(i)}}; g_grid = 0; return j; }},
+        {"imports-parsed", importGridCount, [](uint64_t i, Ctx &c) { g_grid = 2; runClone(i, true, c); g_grid = 0; },
+         [](uint64_t i) { g_grid = 2; Source s = sourceAt(i, true, nullptr); json j = {{"dims", whereOf(i)}, {"origin", "printed-then-parsed"}, {"document", s.text}}; g_grid = 0; return j; }},
         {"foreign-eq", foreignCount, runForeign, [](uint64_t i) { Radix r(i); int sh = int(r.take(4)), o = int(r.take(3)), in = int(r.take(2)); return json{{"shape", sh}, {"outside", o}, {"internal", in}}; }},
     };
     return harnessMain(argc, argv, fs);
